@@ -33,6 +33,51 @@ RECV_WRITERS = {S + 'atomic_init', S + 'start', S + 'handle_logon', S + 'handle_
                 S + 'recover_seqnums'}
 
 
+def start_numbers_rule(ctx, prog, RID):
+    # R16.5' explicit start numbers belong to ONE start() call: an initiator applies the PARAMETERS of this call; the members _req_next_* (kept for the
+    # acceptor's later Logon) are written only on the acceptor path - on the initiator path they would survive into the next start()
+    st = prog.fn1(S + 'start')
+    scfg = st.cfg
+    roles = dict(prog.enum('FIX8::Connection::Role')['e'])
+
+    def role_filter(acc):
+        def eo(v, w, lab):
+            if lab is None or not isinstance(lab[1], bool):
+                return True
+            cn = scfg.cond_node(lab[0])
+            if cn is None:
+                return True
+            a, pol = q.polar(cn, lab[1])
+            t = a.strip(casts=True)
+            if t.k == 'BinaryOperator' and t.op in ('==', '!=') and any(x.is_call and x.callee is not None and x.callee.get('n') == 'get_role' for x in t.walk()):
+                val = t.children[1].strip(casts=True).value
+                if val is None:
+                    val = t.children[0].strip(casts=True).value
+                if val in (roles.get('cn_acceptor'), roles.get('cn_initiator')):
+                    is_acc = (val == roles['cn_acceptor']) == (t.op == '==')
+                    return (is_acc == pol) if acc else (is_acc != pol)
+            return True
+        return eo
+    reach_init = scfg.reach_from(scfg.entry, edge_ok=role_filter(False)) | {scfg.entry}
+    for member in (S + '_req_next_send_seq', S + '_req_next_receive_seq'):
+        ws = [w for (w, m) in q.member_writes(st, member) if scfg.has_vertex(w)]
+        leak = [w for w in ws if scfg.vertex_of(w) in reach_init]
+        ctx.check(not leak, RID, S + 'start#requested-numbers.acceptor-only@' + member.split('::')[-1], (leak[0].loc if leak else st.loc),
+                  '%s is stored only on the acceptor path of start()' % member.split('::')[-1],
+                  '%s is stored on the initiator path of start() as well: it is never cleared, so a later start() of the same session object without explicit numbers '
+                  '(ReliableClientSession retries) overrides the recovered numbers with the stale ones' % member.split('::')[-1])
+    for member, pi, tag in ((SEND_SEQ, 2, 'send'), (RECV_SEQ, 3, 'recv')):
+        for (w, m) in q.member_writes(st, member):
+            if not scfg.has_vertex(w) or scfg.vertex_of(w) not in reach_init:
+                continue
+            rhs = (w.args[-1] if w.args else None)
+            if rhs is None or rhs.strip(casts=True).value == 1 or rhs.strip(casts=True).k == 'CXXOperatorCallExpr':
+                continue
+            ctx.check(q.refers_to_decl(rhs, st.param_ids[pi]), RID, S + 'start#initiator-override.%s' % tag, w.loc,
+                      'the initiator\'s explicit %s number is the parameter of this call' % tag,
+                      'the initiator overrides the %s counter with `%s`, not with the parameter of this start() call' % (tag, rhs.text()))
+
+
 def run(ctx):
     prog = Program(UNITS)
     ctx.units.update(UNITS)
@@ -182,6 +227,7 @@ def run(ctx):
                 wv = c.vertex_of(w)
                 ctx.check(wv in c.reach_from(rv) and rv not in c.reach_from(wv), 'R16.5', '%s#override.%s' % (fq, tag), w.loc,
                           'explicit %s number is applied after recovery, never overwritten by it' % tag)
+    start_numbers_rule(ctx, prog, 'R16.5')
     # R16.6 / R16.7 the two places outside send_process that decide which number the next message gets
     prog2 = Program(UNITS + MORE_UNITS)
     ctx.units.update(MORE_UNITS)
